@@ -30,6 +30,9 @@ RULE = ("bin tables with 1-3 chromosomes (fixed width with short last bin, varia
         "ids (dense view compared up to 20 bins, sparse view for 300); unordered creation (ordered=False / default for an iterable) over the grid number of chunks 1..17 x max_merge {0,1,2,3,4,10,200} x mergebuf "
         "{1,2,7,2e7} (quick: mergebuf rotating; thorough: full cross + 230 chunks with the default max_merge) with sorted-disjoint / interleaved-with-"
         "duplicates-across-chunks / empty-chunk layouts, shuffled chunk order, ensure_sorted, both storage modes, extra columns; "
+        "process history: re-iterable input objects (ArrayLoader, list / tuple of chunks, DataFrame, dict) iterated by hand before the creation and fed to "
+        "two consecutive creations with different destinations and options; a cooler created and read at a path that is then overwritten by a "
+        "different matrix (same / fewer / more bins, other mode, other columns); "
         "one round trip of 1,000,005 records over 2100 bins in which row 1000 begins exactly at record 1,000,000 (frame and 7-chunk iterator; "
         "square mode too in the thorough tier), read back through pixels()[a:b], sparse row fetches of rows 998..1002 and a dense window; "
         "a separate malformed stream (unsorted, duplicates across chunks, out-of-range ids, "
@@ -101,7 +104,7 @@ def _represent(d, form, rep):
     return d
 
 
-def build_input(case, workdir=None):
+def build_input(case, workdir=None, need_px=True):
     """returns (bins, pixels-argument, kwargs) for create_cooler"""
     import cooler
     from cooler.create import ArrayLoader
@@ -135,6 +138,11 @@ def build_input(case, workdir=None):
         kw["mode"] = rep["mode"]
     form = case["form"]
     idt = case.get("id_dtype", "int64")
+    if not need_px:                                       # the caller supplies the (reused) input object
+        assert form in ("frame", "dict", "chunks", "array")
+        if form in ("chunks", "array"):
+            kw["ordered"] = True
+        return bins, None, kw
     if form in ("frame", "dict"):
         d = G.make_chunk(case["rows"], cols, "dict", idt)
         px = _represent(d, "df" if form == "frame" else "dict", rep)
@@ -191,16 +199,55 @@ def build_input(case, workdir=None):
     return bins, px, kw
 
 
+def _pre_iterate(px, how):
+    """use the input object before handing it to the library: a re-iterable input must not remember it"""
+    if how == "partial":
+        next(iter(px), None)
+    elif how == "full":
+        list(px)
+    elif how == "twice":
+        list(px)
+        list(px)
+
+
 def impl_case(case, path):
+    """one creation + read back, possibly with a process history in front of it (case["history"]):
+       reuse     - the SAME input object (ArrayLoader, list/tuple of chunks, DataFrame, dict) was iterated by hand and/or
+                   already fed to an earlier creation at another destination with other options;
+       overwrite - another cooler was created at the SAME path and read completely through the API just before."""
+    hist = case.get("history")
+    if not hist:
+        return _impl_one(case, path)
+    workdir = os.path.dirname(path)
+    if hist["kind"] == "overwrite":
+        _impl_one(hist["prev"], path)
+        return _impl_one(case, path, keep_file=True)      # default mode "w" replaces the file
+    first = {k: v for k, v in case.items() if k != "history"}
+    first.update(hist.get("first", {}))
+    _, px, _ = build_input(first, workdir)
+    _pre_iterate(px, hist.get("pre"))
+    if hist["nth"] == 2:
+        other = path + ".first.cool"
+        _impl_one(first, other, px_override=px)
+        out = _impl_one(case, path, px_override=px)
+        if os.path.exists(other):
+            os.remove(other)
+        return out
+    return _impl_one(case, path, px_override=px)
+
+
+def _impl_one(case, path, px_override=None, keep_file=False):
     """create + read back; returns a dict of canonical observables"""
     import cooler
     import h5py
     rep = case.get("rep", {})
     workdir = os.path.dirname(path)
-    for fn in [path] + [os.path.join(workdir, x) for x in os.listdir(workdir) if x.endswith(".multi.cool")]:
+    for fn in ([] if keep_file else [path]) + [os.path.join(workdir, x) for x in os.listdir(workdir) if x.endswith(".multi.cool")]:
         if os.path.exists(fn):
             os.remove(fn)
-    bins, px, kw = build_input(case, workdir)
+    bins, px, kw = build_input(case, workdir, need_px=px_override is None)
+    if px_override is not None:
+        px = px_override
     grp = rep.get("uri")                                  # destination group, spelled as given ("g/h", "/g/h", ...)
     uri = path if not grp else path + "::" + grp
     gpath = "/" if not grp else "/" + grp.strip("/")
@@ -756,6 +803,86 @@ def gen_cases(ctx):
             case["rep"]["iterkind"] = "generator"
         cases.append(case)
 
+    # C6. process history.  (a) re-iterable input objects (ArrayLoader, list / tuple of chunks, DataFrame, dict) iterated by hand
+    #     (partially, fully, twice) before the creation, and fed to TWO consecutive creations at different destinations with
+    #     different options; (b) a cooler created and read completely at path P, then P overwritten (mode "w") by a different
+    #     matrix with the same / fewer / more bins, other storage mode, other columns.  Every result is compared with the matrix given.
+    def hrows(nbins, symm, cols, salt):
+        cells = [(i, j) for i in range(nbins) for j in range(nbins) if (i <= j or not symm) and (i * 5 + j * 3 + salt) % 3 != 0]
+        return [[i, j, [1 + (i * 7 + j * 3 + q + salt) % 89 for q in range(len(cols))]] for (i, j) in cells]
+
+    def hcase(form, nbins, symm, cols, salt, **kw_):
+        rows = hrows(nbins, symm if form != "array" else True, cols, salt)
+        c = {"grp": "history", "widths": G.BIN_TABLES[nbins][salt % len(G.BIN_TABLES[nbins])], "symm": symm, "cols": cols, "form": form, "rep": {}}
+        if form == "array":
+            A = [[0] * nbins for _ in range(nbins)]
+            for i, j, vv in rows:
+                A[i][j] = vv[0]
+                if i != j and (i + j) % 2:
+                    A[j][i] = vv[0] + 40
+            c["array"] = A
+            c["chunksize"] = 1 + salt % 3
+        else:
+            c["rows"] = rows
+            if form == "chunks":
+                k = 3
+                marks = sorted(rng.randint(0, len(rows)) for _ in range(k - 1))
+                edges = [0] + marks + [len(rows)]
+                c["cuts"] = [b_ - a for a, b_ in zip(edges[:-1], edges[1:])]
+                c["chunkforms"] = [["dict", "df"][(salt + q) % 2] for q in range(k)]
+        c.update(kw_)
+        return c
+
+    salt = 0
+    seconds = [{"symm": False, "h5opts": "lzf"}, {"h5opts": "nocomp", "rep_uri": "/g"}, {"symm": False}, {"h5opts": "gzip1"}]
+    for form, iterkind, pres in (("array", None, ("none", "partial", "full", "twice")), ("array", "h5py", ("none", "full")),
+                                 ("chunks", "list", ("none", "partial", "full")), ("chunks", "tuple", ("none", "full")),
+                                 ("frame", None, ("none",)), ("dict", None, ("none",))):
+        for pre in pres:
+            for nth in (1, 2):
+                if nth == 1 and pre == "none":
+                    continue                              # that is every ordinary case
+                salt += 1
+                base = hcase(form, 5, True, DEFAULT_COLS, salt)
+                if form == "array" and iterkind:
+                    base["rep"]["array_kind"] = iterkind
+                elif iterkind:
+                    base["rep"]["iterkind"] = iterkind
+                if nth == 1:
+                    base["history"] = {"kind": "reuse", "pre": pre, "nth": 1}
+                    cases.append(base)
+                    continue
+                sec = dict(seconds[salt % len(seconds)])
+                case = dict(base)
+                case["rep"] = dict(base["rep"])
+                firstov = {}
+                for k_, v_ in sec.items():
+                    if k_ == "rep_uri":
+                        firstov["rep"] = dict(base["rep"])
+                        case["rep"]["uri"] = v_
+                    else:
+                        firstov[k_] = base.get(k_, "default" if k_ == "h5opts" else None)
+                        case[k_] = v_
+                case["history"] = {"kind": "reuse", "pre": pre, "nth": 2, "first": firstov}
+                cases.append(case)
+    C3h = [["count", "int", "int32", "int64"], ["foo", "float", "default", "float64"], ["bar", "int", "int64", "int64"]]
+    for prev_spec, cur_spec in (
+            (("frame", 5, True, DEFAULT_COLS), ("frame", 5, True, DEFAULT_COLS)),      # same bins, different matrix
+            (("chunks", 5, True, DEFAULT_COLS), ("frame", 3, True, DEFAULT_COLS)),     # fewer bins
+            (("frame", 3, True, DEFAULT_COLS), ("chunks", 7, False, DEFAULT_COLS)),    # more bins, other storage mode
+            (("array", 6, True, DEFAULT_COLS), ("array", 6, True, DEFAULT_COLS)),
+            (("dict", 5, False, DEFAULT_COLS), ("dict", 5, True, C3h)),                # other columns
+            (("chunks", 7, True, C3h), ("chunks", 4, False, DEFAULT_COLS)),
+            (("frame", 4, True, DEFAULT_COLS), ("array", 4, False, DEFAULT_COLS)),
+            (("frame", 6, True, DEFAULT_COLS), ("frame", 6, True, DEFAULT_COLS))):
+        salt += 1
+        prev = hcase(*prev_spec, salt)
+        cur = hcase(*cur_spec, salt + 17)
+        if prev_spec == cur_spec and salt % 2:
+            cur["rows" if "rows" in cur else "array"] = cur["rows"][:len(cur["rows"]) // 2] if "rows" in cur else [[0] * len(r) for r in cur["array"]]
+        cur["history"] = {"kind": "overwrite", "prev": prev}
+        cases.append(cur)
+
     # D. ArrayLoader, every chunksize 1..n+1
     for n in (range(1, 8) if thorough else (1, 2, 3, 4, 6)):
         for rep in range(3 if thorough else 1):
@@ -832,7 +959,7 @@ def nontrivial(case):
     rows = case.get("rows") or []
     return (len(rows) >= 2 or len(case.get("cuts", [])) >= 2 or any(r[0] != r[1] for r in rows) or case["form"] == "array"
             or case["cols"] != DEFAULT_COLS or case.get("h5opts", "default") != "default" or bool(case.get("opts"))
-            or case.get("id_dtype", "int64") != "int64" or bool(case.get("rep")))
+            or case.get("id_dtype", "int64") != "int64" or bool(case.get("rep")) or bool(case.get("history")))
 
 
 # --------------------------------------------------------------------------- run
